@@ -10,7 +10,7 @@ TRUSTED = ["model EpyVerif/Model/NetGF.lean (DiscreteGF._coefficientsFromNetwork
            "values, tolerance = 10 x the alias term a_{m+n}+a_{m+2n}+... that the n-point contour sum has in exact arithmetic + 1e-6 relative + 1e-9",
            "networkx Graph.degree (a self-loop counts twice)"]
 ASSUMPTIONS = ["ranges of the property: mean degree <= 20, exponent 2..3.5, cutoff 5..60, index + order <= 60; derivative values at 1 only for ER"]
-RULE = ("network clause: random graphs of 1..12 nodes incl. isolated nodes, a single hub, self-loops, regular graphs: coefficients, G(1), G'(1) and "
+RULE = ("network clause: random graphs of 1..12 nodes incl. isolated nodes, a single hub (4% with degree 301..419), self-loops, regular graphs, in 40% of cases built on a graph object that had other edges (same node count, usually same edge count) and was read through a GF before: coefficients, G(1), G'(1) and "
         "coefficients of derivatives compared with the exact Lean model / the degree sequence. Analytic clause: gf_er and gf_plc at random parameters "
         "of the stated ranges, plain, scaled and differentiated in both orders, against high-precision Taylor coefficients (numerical oracle). "
         "non-trivial = network with >= 2 distinct degrees, or an analytic case with order > 0 or scale != 1; distinct = spec")
@@ -20,7 +20,7 @@ PARTIAL = ["'within numerical tolerance' (floating-point contour integration, mp
 
 def _jobs(ctx):
     q = ctx.quick()
-    return ([(f'net{k}', ['net', 60 if q else 800]) for k in range(4 if q else 8)]
+    return (sc.corpus_job(ctx) + [(f'net{k}', ['net', 60 if q else 800]) for k in range(4 if q else 8)]
             + [(f'ana{k}', ['analytic', 1 if q else 12]) for k in range(8 if q else 16)])
 
 
